@@ -31,7 +31,6 @@ ASSUMPTIONS = [
     "well-formed CSV = what Python's csv.writer emits (excel dialect) for the generated grid",
     "numeric spellings carry <= 15 significant digits (documented rounding otherwise)",
     "with --whitespace a header cell may come back normalised or verbatim (the option's text does not say)",
-    "grids with fewer than 2 rows or 2 columns come back padded with empty cells to 2x2 (the converter's minimum table)",
 ]
 
 
@@ -134,12 +133,15 @@ def check_grid(ctx, case):
         if opts.get("whitespace"):
             data = [[re.sub(r"\s+", " ", c.strip()) for c in row] for row in data]
         want = ([header] if header is not None else []) + data
-        # the converter starts from a 2x2 table (a Numbers table needs a body row and column next to its header
-        # row/column), so a grid narrower or shorter than 2 comes back padded with empty cells
-        if want and len(want[0]) < 2:
-            want = [r + [""] * (2 - len(r)) for r in want]
-        while len(want) < 2:
-            want.append([""] * len(want[0]))
+        # the converter starts from a 2x2 table, so a grid narrower or shorter than 2 comes back padded with empty
+        # cells: compared against the padded grid, then reported as the (known) finding padded_2x2
+        padded = False
+        if want and (len(want[0]) < 2 or len(want) < 2) and (len(back) != len(want) or len(back[0]) != len(want[0])):
+            padded = True
+            if len(want[0]) < 2:
+                want = [r + [""] * (2 - len(r)) for r in want]
+            while len(want) < 2:
+                want.append([""] * len(want[0]))
         flags = case_flags(grid)
         dup = ("dup_header",) if (flags["dup_header"] and not opts.get("no-header")) else ()
         if len(back) != len(want) or any(len(a) != len(b) for a, b in zip(back, want)):
@@ -164,6 +166,9 @@ def check_grid(ctx, case):
                             continue
                         what = "cr" if ("\r" in w) else "special_float" if classify_kind(w) == "special" else "other"
                         ctx.fail(("C20",) + dup + ("text_changed", what), {**case, "cell": [r, c]}, f"cell ({r},{c}) {w!r} exported as {b!r}")
+        if padded:
+            ctx.fail(("C20",) + dup + ("padded_2x2",), {**case, **flags},
+                     f"a {len(grid)}x{len(grid[0])} grid is exported as {len(back)}x{len(back[0])}: padded with empty cells to the converter's 2x2 minimum")
         if flags["nontrivial"]:
             ctx.nt([grid, sorted(k for k, v in opts.items() if v)])
         for k in ("quoted", "special", "numeric_fancy", "dup_header", "cr"):
@@ -222,7 +227,7 @@ def numeric_spelling(draw):
     if style == "commas":
         return f"{n:,}"
     if style == "exp":
-        return f"{s[0]}.{s[1:] or '0'}{draw(st.sampled_from(['e', 'E']))}{draw(st.integers(-20, 20))}"
+        return f"{s[0]}.{s[1:] or '0'}{draw(st.sampled_from(['e', 'E']))}{draw(st.integers(-20, 20) | st.integers(-300, 290))}"
     if style == "sign":
         return draw(st.sampled_from(["+", "-"])) + s
     if style == "underscore":
